@@ -332,6 +332,9 @@ def run(rep: Report, ctx: Any) -> str:
     for k, msg in sorted(ji.undefined_names.items()):
         if msg.startswith("macro ") and "is not defined in" in msg:
             rep.observe(f"{k[0]}: {msg} (imported but never used)")
+        elif msg.startswith("name `") and _only_asked_whether_defined(ctx, k[0], k[1], k[2]):
+            # asking whether a name is defined is not a use of it, and a use placed under that question is not reached without it
+            rep.ok("R06.3", f"{k[0]}::{k[1]}::{k[2]}", "unbound name", "read only under `is defined`")
         else:
             rep.fail("R06.3", f"{k[0]}::{k[1]}::{k[2]}", msg, where=f"{PKG}/templates/{k[0]}")
 
@@ -342,6 +345,94 @@ def run(rep: Report, ctx: Any) -> str:
     _exit_status(rep, ctx, cfgs)
     _diagnostics_returned(rep, ctx)
     return LEVEL
+
+
+def _only_asked_whether_defined(ctx: Any, tname: str, macro: str, name: str) -> bool:
+    """every place of the template (as rendered: a child of a layout is the layout with the child's blocks in place) that reads the
+    name NAME either asks `NAME is defined` / `NAME is undefined` - which is no use of it - or is reached only when that question
+    was answered `defined`: on every assignment of truth values to the atoms of the conditions it sits under (`{% if %}` / `elif` /
+    `else`, loop filters, the left operand of `and` / `or`, the test of a conditional expression) that lets it be reached.  A name
+    with no such place, or with one place that is not covered, stays reported."""
+    from jinja2 import nodes
+
+    from .. import tplq
+
+    ti = ctx.jinja.templates.get(tname)
+    if ti is None:
+        return False
+    start: list[Any] = [ti.macros[macro]] if macro in ti.macros else list(ti.tree.body) if macro == "<top>" else []
+    uses: list[tuple[tuple, tuple]] = []  # (guard nodes, polarities) per reading occurrence
+
+    def asks(t: Any) -> bool:
+        return isinstance(t, nodes.Test) and t.name in ("defined", "undefined") and isinstance(t.node, nodes.Name) and t.node.name == name
+
+    def visit(n: Any, gn: tuple, pol: tuple) -> None:
+        if isinstance(n, nodes.Macro) and n not in start:
+            return
+        if isinstance(n, nodes.Name):
+            if n.name == name and n.ctx == "load":
+                uses.append((gn, pol))
+            return
+        if asks(n):
+            for a in n.args:
+                visit(a, gn, pol)
+            return
+        if isinstance(n, nodes.If):
+            visit(n.test, gn, pol)
+            for b in n.body:
+                visit(b, gn + (n.test,), pol + (True,))
+            g2, p2 = gn + (n.test,), pol + (False,)
+            for el in n.elif_:
+                visit(el.test, g2, p2)
+                for b in el.body:
+                    visit(b, g2 + (el.test,), p2 + (True,))
+                g2, p2 = g2 + (el.test,), p2 + (False,)
+            for b in n.else_ or []:
+                visit(b, g2, p2)
+            return
+        if isinstance(n, nodes.For):
+            visit(n.iter, gn, pol)
+            visit(n.target, gn, pol)
+            if n.test is not None:
+                visit(n.test, gn, pol)
+            for b in n.body:
+                visit(b, gn + ((n.test,) if n.test is not None else ()), pol + ((True,) if n.test is not None else ()))
+            for b in n.else_ or []:
+                visit(b, gn, pol)
+            return
+        if isinstance(n, (nodes.And, nodes.Or)):
+            visit(n.left, gn, pol)
+            visit(n.right, gn + (n.left,), pol + (isinstance(n, nodes.And),))
+            return
+        if isinstance(n, nodes.CondExpr):
+            visit(n.test, gn, pol)
+            visit(n.expr1, gn + (n.test,), pol + (True,))
+            if n.expr2 is not None:
+                visit(n.expr2, gn + (n.test,), pol + (False,))
+            return
+        for c in n.iter_child_nodes():
+            visit(c, gn, pol)
+
+    for n in start:
+        visit(n, (), ())
+    if not uses:
+        return True if _asked_somewhere(start, asks) else False
+    for gn, pol in uses:
+        # the atoms that ask about NAME, among the atoms of the conditions above this place
+        asking = {tplq.expr_text(t): t.name == "defined" for g in gn for t in g.find_all(nodes.Test) if asks(t)}
+        asking.update({tplq.expr_text(g): g.name == "defined" for g in gn if asks(g)})
+        if not asking:
+            return False
+        fr = tplq.Frag("expr", name, 0, tuple((tplq.expr_text(g), p) for g, p in zip(gn, pol)), gn, ())
+        if len(tplq.guard_atoms(fr)) > 10 or not any(tplq.implies(fr, a, v) for a, v in asking.items()):
+            return False
+    return True
+
+
+def _asked_somewhere(start: list[Any], asks: Any) -> bool:
+    from jinja2 import nodes
+
+    return any(asks(t) for n in start for t in ([n] if asks(n) else []) + list(n.find_all(nodes.Test)))
 
 
 def _callee(ix: Any, f: FuncInfo, c: ast.Call) -> FuncInfo | None:
